@@ -14,7 +14,7 @@ import (
 )
 
 func init() {
-	register("C10", "Decides the structural conditions of pod construction and of its agreement with the comparison: (R1) on every path of CreatePodFromDaemonSetReplicaSet the returned pod is built from a DeepCopy of replicaset.Spec.Template and, at the return, carries namespace ← replicaset.Namespace, label replica-set-name ← replicaset.Name, label extendeddaemonset-name ← replicaset.Labels[that key], annotation template-hash ← replicaset.Spec.TemplateGeneration, Tolerations ← append(·, StandardDaemonSetTolerations...); with node != nil either Spec.NodeName ← node.Name or Spec.Affinity ← ReplaceNodeNameNodeAffinity(·, node.Name), and the node-hash annotation ← GenerateHashFromEDSResourceNodeAnnotation(replicaset.Namespace, eds name, node.Annotations) exactly when that hash is non-empty; with scheme != nil SetControllerReference(replicaset, pod, scheme) — none of them overwritten later on the path, callee writes through the template pointer included (abstract last-writer simulation along every acyclic path); (R2) ReplaceNodeNameNodeAffinity: every return path installs the fresh single-term selector {metadata.name In [nodename]} or the rebuilt term list; the rebuilt list gets one term per original term (full index loop, no early exit, append on every iteration) and every appended term has the node-name requirement set, replaced or appended; GetNodeNameFromAffinity reads the same key; (R3) every Create(*Pod) reachable from a reconciler takes result #0 of that constructor called with Node and ExtendedDaemonsetSetting of one and the same creation candidate and with a scheme that traces back to a reconciler's scheme field; (R4) hash-key chain: the comparison reads the template-hash / node-hash annotation keys the constructor writes, compares the first with Replicaset.Spec.TemplateGeneration and the second with the same hash function over (replicaset.Namespace, ·, node annotations), and compareCurrentPodWithNewPod returns true only when both (and the setting check) returned true; (R5) source agreement: the constructor's writers of Containers[i].Resources are ordered by dominance (later wins); for every source written after the ExtendedDaemonsetSetting source (today: the node's annotations), every write by which the comparison overlays setting data onto the compared copy is guarded by a fact whose condition consults that source for the container (a lookup in the node's annotations with a key depending on the container name, directly or through a repository function whose results vary with such a lookup); (R5b) the guard under which the constructor stores the annotation's resources and the guard under which the comparison overlays the setting are both expressed (as a disjunction over paths of conjunctions of facts) on the results of one shared lookup function, and for every result combination that function can return (its return-path table, unknown values tried both ways) exactly one of the two guards holds; (R6) in GenerateMD5PodTemplateSpec and GenerateHashFromEDSResourceNodeAnnotation no digest feed (Write / io.Copy / Fprint* / crypto Sum input) lies inside a range-over-map loop, no string or buffer accumulated in such a loop reaches the digest, and every slice appended to in such a loop that reaches the digest is passed to a sort call that dominates the feed.", runC10)
+	register("C10", "Decides the structural conditions of pod construction and of its agreement with the comparison: (R1) on every path of CreatePodFromDaemonSetReplicaSet the returned pod is built from a DeepCopy of replicaset.Spec.Template and, at the return, carries namespace ← replicaset.Namespace, label replica-set-name ← replicaset.Name, label extendeddaemonset-name ← replicaset.Labels[that key], annotation template-hash ← replicaset.Spec.TemplateGeneration, Tolerations ← append(·, StandardDaemonSetTolerations...); with node != nil either Spec.NodeName ← node.Name or Spec.Affinity ← ReplaceNodeNameNodeAffinity(·, node.Name), and the node-hash annotation ← GenerateHashFromEDSResourceNodeAnnotation(replicaset.Namespace, eds name, node.Annotations) exactly when that hash is non-empty; with scheme != nil SetControllerReference(replicaset, pod, scheme) — none of them overwritten later on the path, callee writes through the template pointer included (abstract last-writer simulation along every acyclic path); (R2) ReplaceNodeNameNodeAffinity: every return path installs the fresh single-term selector {metadata.name In [nodename]} or the rebuilt term list; the rebuilt list gets one term per original term (full index loop, no early exit, append on every iteration) and every appended term has the node-name requirement set, replaced or appended; GetNodeNameFromAffinity reads the same key; (R3) every Create(*Pod) reachable from a reconciler takes result #0 of that constructor called with Node and ExtendedDaemonsetSetting of one and the same creation candidate and with a scheme that traces back to a reconciler's scheme field; (R4) hash-key chain: the comparison reads the template-hash / node-hash annotation keys the constructor writes, compares the first with Replicaset.Spec.TemplateGeneration and the second with the same hash function over (replicaset.Namespace, ·, node annotations), and compareCurrentPodWithNewPod returns true only when both (and the setting check) returned true; (R5) source agreement: the constructor's writers of Containers[i].Resources are ordered by dominance (later wins); for every source written after the ExtendedDaemonsetSetting source (today: the node's annotations), every write by which the comparison overlays setting data onto the compared copy is guarded by a fact whose condition consults that source for the container (a lookup in the node's annotations with a key depending on the container name, directly or through a repository function whose results vary with such a lookup); (R5b) the guard under which the constructor stores the annotation's resources and the guard under which the comparison overlays the setting are both expressed (as a disjunction over paths of conjunctions of facts) on the results of one shared lookup function, and for every result combination that function can return (its return-path table, unknown values tried both ways) exactly one of the two guards holds; (R6) in GenerateMD5PodTemplateSpec and GenerateHashFromEDSResourceNodeAnnotation no digest feed (Write / io.Copy / Fprint* / crypto Sum input) lies inside a range-over-map loop, no string or buffer accumulated in such a loop reaches the digest, and every slice appended to in such a loop that reaches the digest is passed to a sort call that dominates the feed. Shapes read through: (R2) the reader may return the node name a repository helper found (the helper then gives the Key guarantee), and an existing node-name requirement may be replaced in a loop over collected indexes when the append is skipped only for a non-empty index list; (R4) the reader of a hash annotation may be handed the pod's annotation map instead of the pod (at every call the map must be a pod's Annotations), and the replica set whose namespace enters the node hash may be reached through a field; (R8) a namespace/name read off an object that is itself reached through fields is classified by that object's type.", runC10)
 }
 
 type c10Ctx struct {
@@ -1168,19 +1168,53 @@ func c10Affinity(r *Run) {
 	}
 
 	// reader
-	rsf := shortFunc(rd)
-	rpaths, _, okR := funcPaths(rd, 5000)
+	okKey, whyKey, n := c10ReaderKey(r, rd, 0, keyConst, 0)
+	if okKey && n == 0 {
+		okKey, whyKey = false, "the reader never returns a node name"
+	}
+	r.Check("C10.R2", "reader key", r.Prog.Pos(rd.Pos()), shortFunc(rd), "GetNodeNameFromAffinity returns Values[0] only of a requirement whose Key is the constant the writer uses ("+keyConst+")", okKey, whyKey)
+}
+
+// c10ReaderKey: every value other than "" that fn returns as result idx is Values[0] of a requirement
+// under the fact requirement.Key == keyConst — read in fn itself, or returned (with the same guarantee)
+// by a repository helper. n counts the returns that read a requirement.
+func c10ReaderKey(r *Run, fn *ssa.Function, idx int, keyConst string, depth int) (okKey bool, whyKey string, n int) {
+	if depth > 3 || len(fn.Blocks) == 0 {
+		return false, "the value comes from " + shortFunc(fn) + ", which is not analysed", 0
+	}
+	rpaths, _, okR := funcPaths(fn, 5000)
 	r.paths += len(rpaths)
 	if !okR {
-		r.Undecided("C10.R2", "reader key", r.Prog.Pos(rd.Pos()), rsf, "path cap exceeded")
-		return
+		return false, "undecided: path cap exceeded in " + shortFunc(fn), 0
 	}
-	okKey, whyKey, n := true, "", 0
+	okKey = true
 	for _, p := range rpaths {
 		ret := returnOf(p.Blocks[len(p.Blocks)-1])
-		res := p.Resolve(ret.Results[0])
+		if ret == nil || idx >= len(ret.Results) {
+			continue
+		}
+		res := p.Resolve(ret.Results[idx])
 		if s, isC := constString(res); isC && s == "" {
 			continue
+		}
+		// the result of a repository helper: the helper gives the guarantee
+		var call *ssa.Call
+		ri := 0
+		if ex, isE := res.(*ssa.Extract); isE {
+			call, _ = ex.Tuple.(*ssa.Call)
+			ri = ex.Index
+		} else if c, isC := res.(*ssa.Call); isC {
+			call = c
+		}
+		if call != nil {
+			if cal := staticCallee(&call.Call); cal != nil && r.Prog.IsRuleSite(cal) {
+				ok2, why2, n2 := c10ReaderKey(r, cal, ri, keyConst, depth+1)
+				n += n2
+				if !ok2 {
+					okKey, whyKey = false, why2
+				}
+				continue
+			}
 		}
 		n++
 		// value = X.Values[0] under X.Key == key
@@ -1196,7 +1230,7 @@ func c10Affinity(r *Run) {
 			}
 		}
 		if elem == nil {
-			okKey, whyKey = false, "returns "+res.String()+", not Values[0] of a requirement"
+			okKey, whyKey = false, shortFunc(fn)+" returns "+res.String()+", not Values[0] of a requirement"
 			continue
 		}
 		if !p.Has(true, func(v ssa.Value, _ string) bool {
@@ -1208,10 +1242,7 @@ func c10Affinity(r *Run) {
 			okKey, whyKey = false, "a node name is returned without the fact requirement.Key == "+keyConst+": ["+shortFacts(p)+"]"
 		}
 	}
-	if n == 0 {
-		okKey, whyKey = false, "the reader never returns a node name"
-	}
-	r.Check("C10.R2", "reader key", r.Prog.Pos(rd.Pos()), rsf, "GetNodeNameFromAffinity returns Values[0] only of a requirement whose Key is the constant the writer uses ("+keyConst+")", okKey, whyKey)
+	return okKey, whyKey, n
 }
 
 // readOnlyLiteral: a local literal whose fields are each stored once and which is otherwise only loaded.
@@ -1551,6 +1582,37 @@ func c10HashChainPod(r *Run, rule string, withStamp bool) {
 	}, "Replicaset.Spec.TemplateGeneration")
 }
 
+// c10PodAnnotations: v is the annotation map of a pod. The handle is what stands for the pod in v's
+// function: the root of pod.Annotations / pod.GetAnnotations(), or — when the map arrives as a parameter
+// and at EVERY call site within reach the argument is a pod's annotation map — that parameter.
+func c10PodAnnotations(v ssa.Value, reach map[*ssa.Function]bool, depth int) (ssa.Value, bool) {
+	if v == nil || depth > 4 {
+		return nil, false
+	}
+	v = unwrap(v)
+	var root ssa.Value
+	if annotationsOf(func(x ssa.Value) bool { root = x; return isPtrToNamed(x.Type(), pkgCoreV1, "Pod") })(v) {
+		return root, true
+	}
+	par, isPar := v.(*ssa.Parameter)
+	if !isPar {
+		return nil, false
+	}
+	if _, isMap := par.Type().Underlying().(*types.Map); !isMap {
+		return nil, false
+	}
+	sites := callSitesOf(par.Parent(), reach)
+	if len(sites) == 0 {
+		return nil, false
+	}
+	for _, s := range sites {
+		if _, ok := c10PodAnnotations(s.Common().Args[paramIndex(par)], reach, depth+1); !ok {
+			return nil, false
+		}
+	}
+	return par, true
+}
+
 // c10ChainReader: inside the functions reachable from top, the annotation `key` of the pod is read
 // by a function G that returns true only when annotation == X (or, with allowEmpty, when both are
 // absent/empty); X at G's call in top's reach satisfies isWant; top returns true only if G did.
@@ -1562,8 +1624,7 @@ func c10ChainReader(r *Run, rule, label string, top *ssa.Function, key string, i
 			for _, in := range b.Instrs {
 				if l, ok := in.(*ssa.Lookup); ok {
 					if s, isC := constString(l.Index); isC && s == key {
-						root, p := accessPath(l.X)
-						if len(p) > 0 && p[len(p)-1] == "Annotations" && isPtrToNamed(root.Type(), pkgCoreV1, "Pod") {
+						if _, isPA := c10PodAnnotations(l.X, reach, 0); isPA {
 							if len(readers) == 0 || readers[len(readers)-1] != fn {
 								readers = append(readers, fn)
 							}
@@ -1582,17 +1643,36 @@ func c10ChainReader(r *Run, rule, label string, top *ssa.Function, key string, i
 	}
 	G := readers[0]
 	// G's parameters: the pod and the expected value
+	// the handle of the pod inside G: its pod parameter, or the parameter that carries the pod's annotation map
 	var podP *ssa.Parameter
-	for _, p := range G.Params {
-		if isPtrToNamed(p.Type(), pkgCoreV1, "Pod") {
-			podP = p
+	okH := true
+	for _, b := range G.Blocks {
+		for _, in := range b.Instrs {
+			if l, ok := in.(*ssa.Lookup); ok {
+				if s, isC := constString(l.Index); isC && s == key {
+					h, isPA := c10PodAnnotations(l.X, reach, 0)
+					hp, isPar := h.(*ssa.Parameter)
+					if !isPA {
+						continue
+					}
+					if !isPar || (podP != nil && podP != hp) {
+						okH = false
+						continue
+					}
+					podP = hp
+				}
+			}
 		}
 	}
-	if podP == nil {
-		r.Undecided(rule, label+" reader", r.Prog.Pos(G.Pos()), shortFunc(G), "the reader has no pod parameter")
+	if podP == nil || !okH {
+		r.Undecided(rule, label+" reader", r.Prog.Pos(G.Pos()), shortFunc(G), "the reader does not read the annotation of one parameter (the pod or its annotation map)")
 		return
 	}
 	gsf := shortFunc(G)
+	ofPod := func(x ssa.Value) bool {
+		h, isPA := c10PodAnnotations(x, reach, 0)
+		return isPA && h == ssa.Value(podP)
+	}
 	isAnn := func(v ssa.Value) bool {
 		if e, isE := v.(*ssa.Extract); isE && e.Index == 0 {
 			v = e.Tuple
@@ -1602,8 +1682,7 @@ func c10ChainReader(r *Run, rule, label string, top *ssa.Function, key string, i
 			return false
 		}
 		s, isC := constString(l.Index)
-		root, p := accessPath(l.X)
-		return isC && s == key && root == ssa.Value(podP) && len(p) > 0 && p[len(p)-1] == "Annotations"
+		return isC && s == key && ofPod(l.X)
 	}
 	isAnnOK := func(v ssa.Value) bool {
 		e, isE := v.(*ssa.Extract)
@@ -1615,8 +1694,7 @@ func c10ChainReader(r *Run, rule, label string, top *ssa.Function, key string, i
 			return false
 		}
 		s, isC := constString(l.Index)
-		root, p := accessPath(l.X)
-		return isC && s == key && root == ssa.Value(podP) && len(p) > 0 && p[len(p)-1] == "Annotations"
+		return isC && s == key && ofPod(l.X)
 	}
 	// expected value: whatever the annotation is compared with on true paths; it must be the same value everywhere
 	paths, _, ok := funcPaths(G, 5000)
@@ -1709,8 +1787,11 @@ func c10ChainReader(r *Run, rule, label string, top *ssa.Function, key string, i
 				okSrc, whySrc = false, "at "+r.Prog.Pos(s.Pos())+" the expected value is "+pathString(a)
 			}
 			// pod argument is top-level pod parameter of the caller
-			pa := s.Common().Args[paramIndex(podP)]
-			if _, isP := unwrap(pa).(*ssa.Parameter); !isP {
+			pa := unwrap(s.Common().Args[paramIndex(podP)])
+			if !isPtrToNamed(pa.Type(), pkgCoreV1, "Pod") {
+				pa, _ = c10PodAnnotations(pa, reach, 0)
+			}
+			if _, isP := pa.(*ssa.Parameter); !isP {
 				okSrc, whySrc = false, "the compared pod is not the caller's pod parameter"
 			}
 		}
@@ -1748,7 +1829,7 @@ func c10ChainReader(r *Run, rule, label string, top *ssa.Function, key string, i
 			okV, whyV = false, "a path returns true without "+gsf+" having returned true: ["+shortFacts(p)+"]"
 		}
 	}
-	r.Check(rule, label+" verdict", tpos, shortFunc(top), "compareCurrentPodWithNewPod returns true only when the "+label+" check returned true", okV, whyV)
+	r.Check(rule, label+" verdict", tpos, shortFunc(top), "the pod comparison returns true only when the "+label+" check returned true", okV, whyV)
 }
 
 func (c *c10Ctx) nodeHashChain() {
@@ -1769,6 +1850,9 @@ func (c *c10Ctx) nodeHashChain() {
 		}
 		// (replicaset.Namespace, ·, node annotations)
 		nsOK := namespaceOf(func(x ssa.Value) bool { return isPtrToNamed(x.Type(), pkgAPI, "ExtendedDaemonSetReplicaSet") })(call.Call.Args[0])
+		if ow := metaFieldOwner(call.Call.Args[0], "Namespace"); ow != nil && isPtrToNamed(ow.Type(), pkgAPI, "ExtendedDaemonSetReplicaSet") {
+			nsOK = true // the replica set reached through a field (params.Replicaset.Namespace)
+		}
 		annOK := annotationsOf(func(x ssa.Value) bool {
 			root, p := accessPath(x)
 			return isPtrToNamed(x.Type(), pkgCoreV1, "Node") || (isPtrToNamed(root.Type(), pkgStrategy, "NodeItem") && len(p) > 0 && p[len(p)-1] == "Node")
@@ -3010,6 +3094,114 @@ func (c *c10Pin) replaceStoreIn(b *ssa.BasicBlock) bool {
 	return false
 }
 
+// replacedByLoop: the edge q→A is taken only when len(S) > 0 for a slice value S, and q is where a
+// full index loop over S ends whose every iteration replaces an element of the term's MatchFields by
+// the requirement (the loop has no other exit and does not reassign MatchFields): with len(S) > 0 the
+// loop ran, so an element was replaced.
+func (c *c10Pin) replacedByLoop(q, A *ssa.BasicBlock) bool {
+	iff, ok := q.Instrs[len(q.Instrs)-1].(*ssa.If)
+	if !ok || len(q.Succs) != 2 || q.Succs[0] == q.Succs[1] {
+		return false
+	}
+	taken := q.Succs[0] == A
+	cond := iff.Cond
+	if u, ok := cond.(*ssa.UnOp); ok && u.Op == token.NOT {
+		cond, taken = u.X, !taken
+	}
+	bo, ok := cond.(*ssa.BinOp)
+	if !ok {
+		return false
+	}
+	lenOf := func(v ssa.Value) ssa.Value {
+		if call, ok := isBuiltinCall(v, "len"); ok && len(call.Call.Args) == 1 {
+			return call.Call.Args[0]
+		}
+		return nil
+	}
+	isZero := func(v ssa.Value) bool { z, isC := constInt(v); return isC && z == 0 }
+	var S ssa.Value
+	switch {
+	case bo.Op == token.EQL && !taken, bo.Op == token.NEQ && taken:
+		if isZero(bo.Y) {
+			S = lenOf(bo.X)
+		} else if isZero(bo.X) {
+			S = lenOf(bo.Y)
+		}
+	case bo.Op == token.GTR && taken, bo.Op == token.LEQ && !taken: // len(S) > 0
+		if isZero(bo.Y) {
+			S = lenOf(bo.X)
+		}
+	case bo.Op == token.LSS && taken, bo.Op == token.GEQ && !taken: // 0 < len(S)
+		if isZero(bo.X) {
+			S = lenOf(bo.Y)
+		}
+	}
+	if S == nil {
+		return false
+	}
+	if _, isSlice := S.Type().Underlying().(*types.Slice); !isSlice {
+		return false
+	}
+	if len(q.Preds) != 1 {
+		return false
+	}
+	H := q.Preds[0]
+	k := newKeyer(c.fn)
+	for _, rr := range refs(S) {
+		ia, ok := rr.(*ssa.IndexAddr)
+		if !ok || ia.X != S {
+			continue
+		}
+		if h, _ := indexLoopOver(k, ia.Index, S); h == nil || h != H {
+			continue
+		}
+		loop := loopBlocks(H)
+		if loop[q] {
+			continue
+		}
+		var from *ssa.BasicBlock
+		okLoop := true
+		for _, s := range H.Succs {
+			if loop[s] {
+				from = s
+			} else if s != q {
+				okLoop = false
+			}
+		}
+		for b := range loop {
+			if b == H {
+				continue
+			}
+			for _, s := range b.Succs {
+				if !loop[s] {
+					okLoop = false // another way out of the loop
+				}
+			}
+			for _, in := range b.Instrs {
+				if st, isSt := in.(*ssa.Store); isSt && c.isMF(st.Addr) {
+					okLoop = false
+				}
+				if call, isCall := in.(*ssa.Call); isCall {
+					for _, a := range call.Call.Args {
+						if a == c.term {
+							okLoop = false
+						}
+					}
+				}
+			}
+		}
+		if !okLoop || from == nil {
+			continue
+		}
+		for b := range loop {
+			if b != H && c.replaceStoreIn(b) && onEveryIteration(c.fn, from, H, b) {
+				return true
+			}
+		}
+	}
+	return false
+}
+
 func (c *c10Pin) pinnedAt(A *ssa.BasicBlock, before ssa.Instruction, depth int) (bool, string) {
 	fn := c.fn
 	// element stores into term.MatchFields anywhere must store the requirement
@@ -3086,6 +3278,9 @@ func (c *c10Pin) pinnedAt(A *ssa.BasicBlock, before ssa.Instruction, depth int) 
 				walk(ph)
 				okEdge = okFlag && nTrue > 0
 			}
+		}
+		if !okEdge && c.replacedByLoop(q, A) {
+			okEdge = true
 		}
 		if !okEdge {
 			if flagWhy != "" {
@@ -3514,6 +3709,9 @@ func (c *c10Ctx) roleOf(v ssa.Value, depth int, seen map[ssa.Value]bool) map[str
 			switch {
 			case len(sp) == 1 && (sp[0] == "Name" || sp[0] == "Namespace"):
 				out[c10FieldRole(kindOf(root), strings.ToLower(sp[0]))] = true
+			case len(sp) > 1 && (sp[len(sp)-1] == "Name" || sp[len(sp)-1] == "Namespace") && metaFieldOwner(x, sp[len(sp)-1]) != nil:
+				// the object is itself reached through fields (params.Replicaset.Namespace): its kind is its type
+				out[c10FieldRole(kindOf(metaFieldOwner(x, sp[len(sp)-1])), strings.ToLower(sp[len(sp)-1]))] = true
 			case len(sp) >= 1:
 				// a field of a configuration struct: what is stored into that field anywhere in the repository
 				fa, _ := x.X.(*ssa.FieldAddr)
